@@ -12,6 +12,17 @@ DEFAULTS = ["ar", "jar", "javadoc", "gzip", "pyc", "zip"]
 NEEDS_EPOCH = {"gzip", "zip", "jar"}
 
 
+def usable(n, epoch):
+    """Can handler n start with this $SOURCE_DATE_EPOCH?  (documented: a negative value is ignored; gzip stores 32 bits; zip/jar store DOS times, 1980-2107)"""
+    if n not in NEEDS_EPOCH:
+        return True
+    if epoch is None or epoch < 0:
+        return False
+    if n == "gzip":
+        return epoch < 2 ** 32
+    return 315532800 <= epoch <= 4354819199
+
+
 def documented(items, epoch):
     """The documented behaviour, written independently of the code: returns ("error", None) or ("ok", set of handlers that run)."""
     if not items:
@@ -29,7 +40,7 @@ def documented(items, epoch):
         strict = True
     run = []
     for n in sel:
-        ok = not (n in NEEDS_EPOCH and epoch is None)
+        ok = usable(n, epoch)
         if not ok and strict:
             return "error", None
         if ok:
@@ -64,6 +75,10 @@ def run(ctx):
     for items in base + extra:
         for epoch in (samples.EPOCH, None):
             cases.append((items, epoch, "one", []))
+    # epochs some handlers cannot use: beyond 32 bits, before 1980, negative
+    for items in rng.sample(base, 12 if ctx.tier == "quick" else 80) + [[], ["gzip"], ["zip"], ["-ar"], ["-gzip"], ["jar", "gzip"]]:
+        for epoch in (5894967296, 100000000, -5, 4354819200):      # (values at which the sample files of the usable handlers are still dirty)
+            cases.append((items, epoch, "one", rng.choice([[], [], ["-j2"]])))
     # split over several --handler options, and with workers
     for items in rng.sample([b for b in base if len(b) >= 2], 24 if ctx.tier == "quick" else 120) + extra[:4]:
         cases.append((items, samples.EPOCH, "split", []))
